@@ -259,6 +259,10 @@ def check_c15(chk, args):
         core = [h for h in hd if h[-1]['op'] == 'print' and all(o['op'] in ('regc', 'regn', 'regp') for o in h[:-1])]
         rest = [h for h in hd if any(o['op'] == 'print' for o in h) and h not in core[:0]]
         hd = core + rng.sample(rest, min(3000, len(rest)))
+    elif len(hd) > 60000:
+        # thorough tier: all register-register-print histories, 60 000 of the others (executing a history costs ~10 ms)
+        core = [h for h in hd if h[-1]['op'] == 'print' and all(o['op'] in ('regc', 'regn', 'regp') for o in h[:-1])]
+        hd = core + rng.sample(hd, 60000)
     hs += hd
     if not q:
         h3, r3 = tlc_histories(chk, 3, lattice='multi', name='emit3')
